@@ -1148,3 +1148,66 @@ mpc_result!(c13_mpc_result_is_delivered_once, true, Ok(vec![true]), 1, false);
 mpc_result!(c13_mpc_error_is_delivered_once, true, Err(polytune::Error::EmptyMsg), 1, true);
 mpc_result!(c13_mpc_result_without_destination, false, Ok(vec![true]), 0, false);
 mpc_result!(c13_mpc_error_without_destination, false, Err(polytune::Error::EmptyMsg), 0, true);
+
+// ------------------------------------------------------------------------------------------ cancel() in every other state (C15)
+
+/// `client_recv.await` in cancel(): polling tokio's oneshot Receiver makes the Kani compiler panic
+/// (intrinsics.rs:243); the constants task has handed the client back (concrete: a symbolic verdict forks the whole
+/// rest of the cut with a policy in flight and does not finish).
+static mut ENV_CLIENT_BACK: bool = true;
+fn env_client_recv(rx: oneshot::Receiver<NoClient>) -> Option<Result<NoClient, ()>> {
+    std::mem::forget(rx);
+    Some(if unsafe { ENV_CLIENT_BACK } { Ok(NoClient) } else { Err(()) })
+}
+
+fn with_destination(mut s: PolicyStateKind<NoClient>, has_out: bool) -> PolicyStateKind<NoClient> {
+    if has_out {
+        match &mut s {
+            PolicyStateKind::AwaitingValidation { policy, .. }
+            | PolicyStateKind::Validated { policy, .. }
+            | PolicyStateKind::SendingConsts { policy, .. }
+            | PolicyStateKind::SendingConstsCompleted { policy, .. }
+            | PolicyStateKind::Running { policy, .. } => policy.output = Some(url::Url::parse("a:b").expect("parses")),
+            _ => {}
+        }
+    }
+    s
+}
+
+/// C15 - cancel() against a machine in state `$state` holding a leader's permit: once it answers
+/// Ok, a party with an output destination and a scheduled policy has been sent exactly one
+/// notification (an error: Cancelled), a party without one nothing, no command is enqueued, and
+/// the permit is available again (cancel() consumes the machine).
+macro_rules! cancel_in_state {
+    ($name:ident, $state:expr, $has_policy:expr, $has_out:expr) => {
+        #[kani::proof]
+        #[kani::unwind(5)]
+        #[kani::stub(std::fmt::format, no_format)]
+        #[kani::stub(std::collections::hash_map::RandomState::new, env_random_state)]
+        fn $name() {
+            let mut st = EnvState::scheduled(with_destination($state, $has_out), false);
+            reset_answers();
+            st.permit = Some(EnvPermit);
+            let done = seg_sc_cancel(st, open_ret());
+            let (outputs, out_err, cmds, returned) = unsafe { (ENV_OUTPUTS, ENV_OUTPUT_WAS_ERR, ENV_CMDS, ENV_PERMITS_RETURNED) };
+            assert!(done.is_some(), "C15:cancel:completes-in-a-state-without-a-running-mpc-task");
+            let (what, n) = answer(CANCEL, false);
+            assert!(n == 1, "C15:cancel:is-answered-exactly-once");
+            if what == OK {
+                let expected = ($has_policy && $has_out) as u8;
+                assert!(outputs == expected && (expected == 0 || out_err), "C15:cancel:destination-is-sent-exactly-one-cancelled-notification-if-there-is-one");
+            }
+            assert!(cmds == 0, "C15:cancel:enqueues-nothing");
+            assert!(returned == 1, "C15:cancel:the-permit-is-available-again");
+            kani::cover!(what == OK, "answered_ok_reachable");
+        }
+    };
+}
+cancel_in_state!(c15_cancel_in_init, PolicyStateKind::Init, false, false);
+cancel_in_state!(c15_cancel_in_validate_requested, state_validate_requested(), false, false);
+cancel_in_state!(c15_cancel_in_awaiting_validation_with_destination, state_awaiting_validation(), true, true);
+cancel_in_state!(c15_cancel_in_validated_with_destination, state_validated(), true, true);
+cancel_in_state!(c15_cancel_in_validated_without_destination, state_validated(), true, false);
+cancel_in_state!(c15_cancel_in_sending_consts_completed_with_destination, state_sending_consts_completed(), true, true);
+cancel_in_state!(c15_cancel_in_running_with_destination, state_running(), true, true);
+// (state SendingConsts: the arm awaits the constants task's oneshot and does not finish under CBMC - outside the claim)
